@@ -17,6 +17,7 @@ RULE = ('Grid: scope kind (4) x pattern kind (5) x alias assignment {none, A, B}
         'in its own domain, nested re-binding, legal sibling re-use). Every case is realised three ways: text through '
         'the parser, construction through the public API, and but() from a valid neighbour. Non-trivial = >= 1 alias '
         'and >= 1 reference; distinct = (scope, pattern, alias map, reference map, placement).')
+RULE_ADDED = ' Since the seeding rounds: references also inside indices, index chains, indexed domains, range bounds, set elements and function arguments; realisation but-deep (predicates put in through event.but, copies travelling up through but()).'
 ASSUMPTIONS = ['not judged: one alias on two alternatives of one disjunction, an alias bound by the terminator that a '
                'pattern event also binds, a name used both as alias and bound variable, a nested same-name quantifier '
                'inside a quantifier domain']
